@@ -1159,6 +1159,18 @@ impl CodegenContext {
                             .into());
                     }
                     if let Some(seg) = self.try_current_segment_mut() {
+                        // In a segment that is assembled for another address ('pc' option) the address the code
+                        // will run at should still be a valid one
+                        let target = pc + seg.target_offset();
+                        if !(0..=0xffff).contains(&target) {
+                            return Err(Diagnostic::error()
+                                .with_message(format!(
+                                    "program counter {} corresponds to address {} in this relocated segment, which is not between $0000 and $FFFF",
+                                    pc, target
+                                ))
+                                .with_labels(vec![value.span.to_label()])
+                                .into());
+                        }
                         seg.set_pc(pc);
                     }
                 }
